@@ -245,3 +245,75 @@ pub fn noisy_program(rng: &mut Rng) -> Program {
     }
     p
 }
+
+/// Every same-path family `a::F` of one to three DISTINCT members over a small alphabet of member
+/// shapes, in every order (C03 / C04 quantifier "exhaustively for all such families up to a small size
+/// bound").  A member is a one-field struct:
+///   mode      none: `F { x: P }` | used: `F<T> { x: T }` | unused: `F<T> { x: P }`
+///   P         u8 | u16           (concrete field type; not applicable to `used`)
+///   field     named `x` | unnamed
+///   argument  u8 | u16           (instantiation argument; not applicable to `none`)
+/// = 4 + 4 + 8 = 16 member shapes.  Members that differ only in the argument are instantiations of ONE
+/// definition (one `Def`, so one label); arguments and concrete field types are drawn from the same two
+/// primitives on purpose (coincidences).  16 + 16*15 + 16*15*14 = 3616 programs.
+pub fn small_families() -> Vec<Program> {
+    #[derive(Clone, Copy, PartialEq, Debug)]
+    struct M { mode: u8, prim: usize, named: bool, arg: usize }
+    const P: [&str; 2] = ["u8", "u16"];
+    let mut shapes: Vec<M> = vec![];
+    for named in [true, false] {
+        for prim in 0..2 {
+            shapes.push(M { mode: 0, prim, named, arg: 0 });
+            for arg in 0..2 {
+                shapes.push(M { mode: 2, prim, named, arg });
+            }
+        }
+        for arg in 0..2 {
+            shapes.push(M { mode: 1, prim: 0, named, arg });
+        }
+    }
+    assert_eq!(shapes.len(), 16);
+    let program = |ms: &[M]| -> Program {
+        let mut keys: Vec<(u8, usize, bool)> = vec![];
+        let mut defs: Vec<Def> = vec![];
+        let mut roots: Vec<Src> = vec![];
+        for m in ms {
+            let key = (m.mode, m.prim, m.named);
+            let d = match keys.iter().position(|k| *k == key) {
+                Some(d) => d,
+                None => {
+                    keys.push(key);
+                    defs.push(Def {
+                        path: vec!["a".into(), "F".into()],
+                        params: if m.mode == 0 { vec![] } else { vec![("T".into(), false)] },
+                        body: Body::Struct(vec![FieldDef {
+                            name: if m.named { Some("x".into()) } else { None },
+                            ty: if m.mode == 1 { Src::Param(0) } else { Src::Prim(P[m.prim]) },
+                            compact_attr: false,
+                            docs: vec![],
+                            type_name: true,
+                        }]),
+                        docs: vec![],
+                    });
+                    defs.len() - 1
+                }
+            };
+            roots.push(Src::App(d, if m.mode == 0 { vec![] } else { vec![Src::Prim(P[m.arg])] }));
+        }
+        Program { defs, roots }
+    };
+    let mut out = vec![];
+    let n = shapes.len();
+    for a in 0..n {
+        out.push(program(&[shapes[a]]));
+        for b in 0..n {
+            if b == a { continue; }
+            out.push(program(&[shapes[a], shapes[b]]));
+            for c in 0..n {
+                if c == a || c == b { continue; }
+                out.push(program(&[shapes[a], shapes[b], shapes[c]]));
+            }
+        }
+    }
+    out
+}
